@@ -219,6 +219,9 @@ def length_scenarios(rng, tier, stats):
     # hypothesis prefixes on / next to the power-of-two sizes, always
     for d in (-1, 0, 1):
         scs.append(length_decode_scenario(rng, stats, "hyp", targets=[64 + d, 128 + d, 256 + d, 512 + d], variant="plain"))
+    # single spellings (segment words at level 0, alignment words with phones at 1/2) on / next to the same sizes, always
+    for lens in ([63, 64, 65, 128], [127, 129, 255, 256], [257, 511, 512, 513]):
+        scs.append(length_decode_scenario(rng, stats, "word", targets=lens, variant="plain"))
     if tier == "quick":
         scs.append(length_decode_scenario(rng, stats, "hyp", targets=[64, 128, 256, 512], variant=rng.choice(["quote", "backslash"])))
         for _ in range(3):
